@@ -684,6 +684,8 @@ class Fxp():
 
         elif isinstance(val, (int, float, complex)):
             vdtype = type(val)
+            if isinstance(val, int) and not -2**63 <= val < 2**63:
+                val = np.array(val, dtype=object)   # beyond int64: keep it as a python integer
 
         elif isinstance(val, (np.ndarray, np.generic)):
             if isinstance(val, object):
@@ -847,7 +849,12 @@ class Fxp():
         if original_vdtype != complex and not np.issubdtype(original_vdtype, np.complexfloating):
             # val_dtype determination
             _n_word_max_ = min(_n_word_max, 64)
-            if np.max(val) >= 2**_n_word_max_ or np.min(val) < -2**_n_word_max_ or self.n_word >= _n_word_max_:
+            if val.dtype.kind in 'iO':
+                # integer input: the scaled value has to fit in a signed 64 bits integer
+                _int_overflow = max(abs(int(np.max(val))), abs(int(np.min(val)))) * max(conv_factor, 1) >= 2**(_n_word_max_ - 1)
+            else:
+                _int_overflow = False
+            if np.max(val) >= 2**_n_word_max_ or np.min(val) < -2**_n_word_max_ or self.n_word >= _n_word_max_ or _int_overflow:
                 val_dtype = object
                 val = val.astype(object)
             else:
